@@ -71,7 +71,7 @@ def jobs(tier):
         p['ops'] = ops
         out.append(Job('C17', 'c17:h_rw', p, W=96, wall=wall if q else 1800, max_paths=20000, validate=1))
 
-    sizes = [1, 2, 7, 8, 9, 16, 20] if q else list(range(1, 256))
+    sizes = [1, 2, 7, 8, 9, 16, 20, 254, 255] if q else list(range(1, 256))
     for sk in (False, True):
         for n in sizes:
             J([['read', n, 1, 0, 1]], seed_key=sk)
@@ -140,7 +140,7 @@ def jobs(tier):
 
 def meta(tier):
     return {
-        'bounds': ['data lengths ' + ('{1,2,7,8,9,16,20}' if tier == 'quick' else 'every length 1..255') + ' bytes (single-frame DM16 up to 7, RTS/CTS above), object sizes 1/2/4/8',
+        'bounds': ['data lengths ' + ('{1,2,7,8,9,16,20,254,255}' if tier == 'quick' else 'every length 1..255') + ' bytes (single-frame DM16 up to 7, RTS/CTS above), object sizes 1/2/4/8',
                    '32-bit pointer, every data byte supplied by the server, every written value (full unsigned range), the seed (all 16-bit values) symbolic; key function seed ^ 0xFFFF',
                    'read raw / converted, signed / unsigned; direct and spatial addressing; with and without seed/key; client through MemoryAccess and through Dm14Query',
                    '1..3 transactions back to back on the same objects, each with its own symbolic pointer' + ('' if tier == 'quick' else ' (every history of 2 and of 3 transactions over 7 shapes)') + '; canonical schedule (all interleavings for one 20-byte read and write' + ('' if tier == 'quick' else ' and for 8, 9, 15, 30 bytes') + ')'],
